@@ -3,11 +3,9 @@ from __future__ import annotations
 
 import collections
 import io
-import json
 import os
 import struct
 import tempfile
-from pathlib import Path
 
 from dissect.cobaltstrike import pe, utils, xordecode
 from dissect.cobaltstrike.xordecode import XorEncodedFile
@@ -19,7 +17,7 @@ DRIVER = "drv_c09"
 STREAMS = {
     "hist": {"relevant": True, "desc": "history of seek/read/tell on XorEncodedFile, every seek lands in [0, len(plain)]; read bytes and tell compared"},
     "histret": {"relevant": False, "desc": "same histories, additionally the value returned by seek (raw offset; not claimed by the property)"},
-    "histeof": {"relevant": True, "desc": "histories whose seeks may land up to 12 bytes past the end (>= 0)"},
+    "histeof": {"relevant": True, "desc": "histories whose seeks may land up to 12 bytes past the end (>= 0); read bytes and tell compared"},
     "histwild": {"relevant": False, "desc": "histories with arbitrary seeks (negative logical/raw positions, far past EOF): model fidelity only"},
     "nonce": {"relevant": False, "desc": "read_nonce() at an arbitrary raw position (internal function)"},
     "ino": {"relevant": True, "desc": "list(iter_nonce_offsets(fh, real_size, maxrange))"},
@@ -36,20 +34,13 @@ TRUSTED = [
     "read(sizeof)+EOFError (stream mz); iter_find_needle is a parameter of the theorems (stream detectfull instantiates it with the C15 model)",
 ]
 ASSUMPTIONS = [
-    "raw layout stub ++ nonce(4) ++ size(4) ++ enc; the refinement theorem covers histories whose seeks land in [0, len(plain)] "
-    "(seeks below 0 are undefined: BytesIO and OS files disagree; seeks past the end: see finding C09-read-past-eof-moves-back)",
+    "raw layout stub ++ nonce(4) ++ size(4) ++ enc; the refinement theorem covers histories whose seeks land at logical positions >= 0, "
+    "including beyond the end (seeks below 0 are undefined: BytesIO and OS files disagree there)",
     "nonce_offset is a natural number; read(n) is called with an int or None",
 ]
 RULE = ("exhaustive (len<=9) x (seek p, read n, tell, read m, tell) + seeded random histories on BytesIO / buffered / unbuffered temp files; "
         "distinct = hash of input line; non-trivial = at least one read returned bytes (hist*), a candidate was found (ino/detect*), "
         "an MZ offset was returned (mz)")
-
-FINDING_EOF = "C09-read-past-eof-moves-back"
-try:
-    _kf = json.loads((Path(__file__).resolve().parents[2] / "known_findings.json").read_text())
-    EOF_FINDING_REGISTERED = any(k.get("id") == FINDING_EOF and k.get("status") == "known" for k in _kf.get("findings", []))
-except Exception:  # noqa: BLE001
-    EOF_FINDING_REGISTERED = False
 
 MARKER = b"\xff\xff\xff"
 NS = [0, 1, 2, 3, 4, 5, 7, 8, -1, -5, None]
@@ -215,9 +206,14 @@ def pe_image(rng, total: int = None, lfanew: int = None, machine: int = None, pr
     m = machine if machine is not None else rng.choice([0x8664, 0x14C])
     hdr = b"MZ" + C.rbytes(rng, 58) + struct.pack("<i", lf)
     body = bytearray(hdr + C.rbytes(rng, max(lf, 0) + 64))
-    if lf > 0:
-        body[4 + lf:4 + lf + 2] = struct.pack("<H", m)      # find_mz_offset reads the file header at +4+e_lfanew
+    if lf >= 0:
         body[lf:lf + 4] = b"PE\0\0"
+    if 4 + lf >= 0:
+        # find_mz_offset reads the file header at +4+e_lfanew; planted also for e_lfanew <= 0 / >= maxrange so that
+        # only the bounds check on e_lfanew can reject those images
+        body[4 + lf:4 + lf + 2] = struct.pack("<H", m)
+        if lf <= 60 < 4 + lf + 2:
+            body[60:64] = struct.pack("<i", lf)
     img = C.rbytes(rng, prefix) + bytes(body)
     if total is not None:
         img = img[:total] if total < len(img) else img + C.rbytes(rng, total - len(img))
@@ -244,12 +240,12 @@ def gen_detect_raw(rng):
     marker = rng.random() < 0.6
     good = rng.random() < 0.8
     k = rng.random()
-    if k < 0.6:
+    if k < 0.58:
         img = pe_image(rng)
-    elif k < 0.7:
+    elif k < 0.68:
         img = pe_image(rng, prefix=rng.choice([1, 2, 5, 100, 1023, 1024]))
-    elif k < 0.8:
-        img = pe_image(rng, lfanew=rng.choice([0, -4, 1024, 1023, 1, 5000]))
+    elif k < 0.82:
+        img = pe_image(rng, lfanew=rng.choice([0, 0, -4, -1, 1024, 1024, 1023, 1023, 1, 1025, 5000]))
     elif k < 0.88:
         img = pe_image(rng, machine=rng.choice([0x200, 0, 0x8665, 0x14D, 0x6486]))
     elif k < 0.95:
@@ -298,7 +294,7 @@ def gen(tier, rng, shard, nshards):
                         if not mine():
                             continue
                         plain = C.rbytes(rng, plen)
-                        raw, off = mk_raw(rng, plain, rng.choice([0, 0, 1, 5, 33]))
+                        raw, off = mk_raw(rng, plain, rng.choice([0, 0, 1, 5, 33]), good_size=rng.random() < 0.3)
                         ops = [("s", p, 0), ("r", n), ("t",), ("r", m), ("t",)]
                         yield "hist", f"hist {kind or rng.choice(kinds)} {off} {C.hx(raw)} {fmt_ops(ops)}"
 
@@ -307,17 +303,17 @@ def gen(tier, rng, shard, nshards):
         for off in (0, 1):
             if not mine():
                 continue
-            raw, _ = mk_raw(rng, C.rbytes(rng, 9), off)
+            raw, _ = mk_raw(rng, C.rbytes(rng, 9), off, good_size=False)
             yield "histwild", f"histwild {kind} {off} {C.hx(raw)} s0:-6,r4,t,s0:-8,r3,t,s0:-5,rn,t,s0:-7,r1,r1,t,s1:-100,t,r2,t"
             for pos in range(0, len(raw) + 6):
                 yield "nonce", f"nonce {kind} {off} {C.hx(raw)} {pos}"
 
     # ---- random histories on short plaintexts (all residues mod 4)
-    for _ in range((480000 if thorough else 20000) // nshards):
+    for _ in range((240000 if thorough else 20000) // nshards):
         plen = rng.randrange(0, 41)
         plain = C.rbytes(rng, plen)
         stublen = rng.choice([0, 1, 2, 3, 4, 7, 8, 64, 1023, rng.randrange(0, 1024), rng.randrange(0, 32)])
-        raw, off = mk_raw(rng, plain, stublen)
+        raw, off = mk_raw(rng, plain, stublen, good_size=rng.random() < 0.3)   # the view never looks at the size dword
         kind = rng.choice(kinds)
         r = rng.random()
         if r < 0.62:
@@ -339,10 +335,10 @@ def gen(tier, rng, shard, nshards):
             yield "nonce", f"nonce {kind} {off} {C.hx(raw)} {max(pos, 0)}"
 
     # ---- long plaintexts (8-20 KB): streaming reads as the CLI does, plus random access
-    for _ in range((3200 if thorough else 96) // nshards):
+    for _ in range((2000 if thorough else 96) // nshards):
         plen = rng.randrange(8192, 20481)
         plain = C.rbytes(rng, plen)
-        raw, off = mk_raw(rng, plain, rng.randrange(0, 1024))
+        raw, off = mk_raw(rng, plain, rng.randrange(0, 1024), good_size=rng.random() < 0.3)
         kind = rng.choice(kinds)
         if rng.random() < 0.3:
             step = rng.choice([8192, 4096, 8191, 5000])
@@ -352,7 +348,7 @@ def gen(tier, rng, shard, nshards):
         yield "hist", f"hist {kind} {off} {C.hx(raw)} {fmt_ops(ops)}"
 
     # ---- iter_nonce_offsets
-    for _ in range((20000 if thorough else 1200) // nshards):
+    for _ in range((12000 if thorough else 1200) // nshards):
         raw, off, maxrange = gen_detect_raw(rng)
         if len(raw) > 6000:
             raw = raw[:6000]
@@ -366,7 +362,7 @@ def gen(tier, rng, shard, nshards):
         yield "counter", f"counter {C.ints(xs)}"
 
     # ---- find_mz_offset on views / detection
-    for _ in range((16000 if thorough else 640) // nshards):
+    for _ in range((10000 if thorough else 640) // nshards):
         raw, off, maxrange = gen_detect_raw(rng)
         kind = rng.choice(["B", "B", "B", "F"])
         if rng.random() < 0.3:
@@ -525,11 +521,9 @@ def history_verdict(line):
 def oracle(stream, line, out):
     w = line.split()
     if stream in ("hist", "histeof"):
-        exp, in_range, nonneg = history_verdict(line)
+        exp, _in_range, nonneg = history_verdict(line)
         if not nonneg:
-            return None
-        if not in_range and not EOF_FINDING_REGISTERED:
-            return None          # outside the proved domain; reported as a finding candidate, fidelity still compared
+            return None          # a seek below 0: outside the property
         return out.split(" ") == exp
     if stream == "histret":
         return None
@@ -555,14 +549,6 @@ def oracle(stream, line, out):
         if exp == "ValueError":
             return out == "exc ValueError"
         return out == f"ok {exp} {exp + 8} 0"
-    return None
-
-
-def known(stream, line, known_list):
-    if stream in ("hist", "histeof") and any(k["id"] == FINDING_EOF for k in known_list):
-        _, in_range, nonneg = history_verdict(line)
-        if nonneg and not in_range:
-            return FINDING_EOF
     return None
 
 
